@@ -23,6 +23,11 @@ IDP = "sparse::Sparse<T>::identity_preconditioner"
 B_, X_, MAXIT, TOL = P(1), P(2), P(3), P(4)
 
 
+def is_idp(path):
+    from .canon import norm_path
+    return path is not None and norm_path(path) == "sparse::Sparse::identity_preconditioner"
+
+
 class Unclassified(Exception):
     pass
 
@@ -288,7 +293,7 @@ class Model:
             else:
                 raise Unclassified("compound assignment to %s" % (v,))
             return True
-        if k == "MethodCall" and callee_path(e) == IDP:
+        if k == "MethodCall" and is_idp(callee_path(e)):
             args = call_args(e)
             src, dst = self.ctx.term(args[1]), self.lval(strip(args[2]).get("e") or args[2]) if strip(args[2]).get("k") == "AddrOf" else self.ctx.term(args[2])
             if dst not in self.vec_vars or not self.is_vec(src):
@@ -671,7 +676,7 @@ def is_initial_residual(sv, V, r, at):
         return t
     if _val(V) == _val(r) and _val(V)[0] != "var":
         return True          # the same expression b - A x, named on one side and inlined on the other
-    into = [c for c in walk(sv.fn["body"]) if c.get("k") == "MethodCall" and callee_path(c) == IDP and _pos(c) < _pos(at)
+    into = [c for c in walk(sv.fn["body"]) if c.get("k") == "MethodCall" and is_idp(callee_path(c)) and _pos(c) < _pos(at)
             and not any(a is sv.main for a in ancestors(c)) and _lval(ctx, c["args"][1]) == V]
     if not into:
         return False
@@ -696,7 +701,7 @@ def last_copy_source(sv, V, at):
     ctx = sv.ctx
     best = None
     for c in walk(sv.fn["body"]):
-        if c.get("k") == "MethodCall" and callee_path(c) == IDP and _lval(ctx, c["args"][1]) == V and _pos(c) < _pos(at):
+        if c.get("k") == "MethodCall" and is_idp(callee_path(c)) and _lval(ctx, c["args"][1]) == V and _pos(c) < _pos(at):
             # must be on the same control path: every If-branch block enclosing c also encloses `at`
             blocks_c = [id(a) for a in ancestors(c) if a.get("k") == "Block" and a.get("_p") is not None and a["_p"].get("k") == "If"]
             anc_at = set(id(a) for a in ancestors(at))
@@ -778,7 +783,7 @@ def rule_normaliser(rep, sv, name):
                 src = V
                 if V != B_:
                     # the copy may be made inside the defining expression itself (a block arm): look there first
-                    inner = [c for c in walk(rhs) if c.get("k") == "MethodCall" and callee_path(c) == IDP and _lval(ctx, c["args"][1]) == V]
+                    inner = [c for c in walk(rhs) if c.get("k") == "MethodCall" and is_idp(callee_path(c)) and _lval(ctx, c["args"][1]) == V]
                     src = ctx.term(max(inner, key=_pos)["args"][0]) if inner else last_copy_source(sv, V, node)
                 good = src == B_
                 n_norm += 1
